@@ -173,6 +173,37 @@ func runCase(c dspace.Case, nopts int, w *enum.Worker) {
 		} else if nerr != 0 {
 			w.Violation(okey+"no-failure-layer-without-errorlayer", fmt.Sprintf("ErrorLayer()==nil but %d layers are decode failures / error layers", nerr))
 		}
+		// 1b. lazy packets: the contract must hold whatever is asked first. Fresh lazy packets on
+		// which ErrorLayer() is the first call / follows ApplicationLayer() / follows a lookup
+		// of an absent type; then Layers(): the error layer is its last element.
+		if o.Lazy {
+			for first := 0; first < 3; first++ {
+				inl := c.Data
+				if o.NoCopy {
+					inl = corpus.Exact(c.Data)
+				}
+				w.Guard("lazy ErrorLayer first", func() {
+					pl := gopacket.NewPacket(inl, c.First.Dec, o)
+					switch first {
+					case 1:
+						pl.ApplicationLayer()
+					case 2:
+						pl.Layer(gopacket.LayerType(1999))
+					}
+					e1 := pl.ErrorLayer()
+					if t.failed != (e1 != nil) {
+						w.Violation(okey+"lazy-failed-iff-errorlayer", fmt.Sprintf("lazy packet, ErrorLayer() asked %s: a decoder failed=%v (%s) but ErrorLayer()!=nil is %v", [...]string{"first", "after ApplicationLayer()", "after Layer(absent type)"}[first], t.failed, t.failedWhat, e1 != nil))
+					}
+					l2 := pl.Layers()
+					if e2 := pl.ErrorLayer(); (e2 != nil) != (e1 != nil) || (e2 != nil && (len(l2) == 0 || l2[len(l2)-1] != gopacket.Layer(e2))) {
+						w.Violation(okey+"lazy-errorlayer-changes", "lazy packet: ErrorLayer() before and after Layers() disagree, or it is not the last layer")
+					}
+					if pp, ok := pl.(gopacket.PooledPacket); ok {
+						pp.Dispose()
+					}
+				})
+			}
+		}
 		// 2. plain decode + transparency self-check + accessor suite
 		in2 := c.Data
 		if o.NoCopy {
